@@ -756,9 +756,23 @@ func trackRun(e *Env) {
 				e.Violation("bg-handler-early", "inside a background handler for line %d (%s) the tracker does not reflect that line yet (and no later state-changing line had been sent): %s", i, sl.text, d)
 			}
 		}
+		// several handlers per verb and set, some of them slow: a dispatch that
+		// does not wait for all of them lets a later line intrude
+		slow := func(k int, h client.HandlerFunc) client.HandlerFunc {
+			return func(c *client.Conn, l *client.Line) {
+				for i := 0; i < k; i++ {
+					simrt.Sleep(0)
+				}
+				h(c, l)
+			}
+		}
 		for _, v := range []string{"JOIN", "PART", "KICK", "QUIT", "NICK", "MODE", "TOPIC", "353", "352", "332", "324"} {
-			c.Handle(v, check("fg"))
-			c.HandleBG(v, check("bg"))
+			for k := g.Range(1, 3); k > 0; k-- {
+				c.Handle(v, slow(g.W(3, 1, 1, 1)*g.Range(1, 25), check("fg")))
+			}
+			for k := g.Range(1, 2); k > 0; k-- {
+				c.HandleBG(v, slow(g.W(3, 1)*g.Range(1, 10), check("bg")))
+			}
 		}
 	}
 	if err := c.Connect(); err != nil {
